@@ -76,7 +76,11 @@ def classify(tmpl, asm, res):
             undecided.append("diagnostic without span: " + d.message)
             continue
         clause_sp = d.labelled("failed this") or d.labelled("failed precondition") or sp
-        site_sp = sp if ours(sp) else next((x for x in d.spans if ours(x)), None)
+        # the site is where the obligation arises (call site, function exit, loop exit) - a span
+        # of the unit file other than the clause itself, when there is one
+        site_sp = next((x for x in d.spans if ours(x) and x is not clause_sp), None)
+        if site_sp is None:
+            site_sp = sp if ours(sp) else next((x for x in d.spans if ours(x)), None)
         if site_sp is None:
             undecided.append("diagnostic outside the unit file: " + d.message)
             continue
